@@ -27,19 +27,24 @@ import (
 
 type Scope struct {
 	id     int
-	parent *Scope
+	parent *Scope // enclosing scope sharing names with this one (nil for functions)
+	isFn   bool   // nested function literal: a scoping root
 	params []string
 	body   []*Stmt
 	result *Expr
 	uses   map[string]bool
-	kids   []*Scope
+	kids   []*Scope // blocks written directly in this scope (not nested functions)
+	fns    []*Scope // nested function literals written directly in this scope
 }
 type Stmt struct {
-	name string
-	e    *Expr
+	kind  string // "=" assign, "?" if (c) is 0 { name = e }, "t" try { name = e } catch (catch) { }, "r" return e
+	name  string
+	e     *Expr
+	c     *Expr
+	catch string
 }
 type Expr struct {
-	kind string // num var add call block
+	kind string // num var add call block fn
 	n    int
 	name string
 	a, b *Expr
@@ -68,10 +73,15 @@ func isParam(s *Scope, v string) bool {
 	return false
 }
 
-func genScope(parent *Scope, depth int, nparams int) *Scope {
+func genScope(parent *Scope, depth int, nparams int, isFn bool) *Scope {
 	nscope++
-	s := &Scope{id: nscope, parent: parent, uses: map[string]bool{}}
-	if parent != nil {
+	s := &Scope{id: nscope, parent: parent, isFn: isFn, uses: map[string]bool{}}
+	if isFn {
+		s.parent = nil
+		if parent != nil {
+			parent.fns = append(parent.fns, s)
+		}
+	} else if parent != nil {
 		parent.kids = append(parent.kids, s)
 	}
 	for i := 0; i < nparams; i++ {
@@ -86,7 +96,7 @@ func genScope(parent *Scope, depth int, nparams int) *Scope {
 			var e *Expr
 			if nm == "f" || nm == "g" {
 				if depth > 0 {
-					e = &Expr{kind: "block", blk: genScope(s, depth-1, 1)}
+					e = genLiteral(s, depth, 1)
 				} else {
 					continue
 				}
@@ -94,18 +104,45 @@ func genScope(parent *Scope, depth int, nparams int) *Scope {
 				e = &Expr{kind: "num", n: r.Intn(5)}
 			}
 			s.uses[nm] = true
-			s.body = append(s.body, &Stmt{nm, e})
+			s.body = append(s.body, &Stmt{kind: "=", name: nm, e: e})
 		}
 	}
 	n := 1 + r.Intn(3)
 	for i := 0; i < n; i++ {
 		name := names[r.Intn(len(names))]
-		e := genExpr(s, depth)
+		st := &Stmt{kind: "=", name: name}
+		switch k := r.Intn(20); {
+		case k < 3:
+			// conditional assignment: a later call can find the name uninitialized
+			st.kind = "?"
+			st.c = genExpr(s, depth)
+			st.e = genExpr(s, depth)
+		case k < 5:
+			st.kind = "t"
+			st.e = genExpr(s, depth)
+			st.catch = names[r.Intn(3)]
+			s.uses[st.catch] = true
+		case k < 6:
+			st.kind = "r"
+			st.e = genExpr(s, depth)
+			s.body = append(s.body, st)
+			continue
+		default:
+			st.e = genExpr(s, depth)
+		}
 		s.uses[name] = true
-		s.body = append(s.body, &Stmt{name, e})
+		s.body = append(s.body, st)
 	}
 	s.result = genExpr(s, depth)
 	return s
+}
+
+// genLiteral: a block, or (1 in 6) a nested function literal
+func genLiteral(s *Scope, depth, nparams int) *Expr {
+	if r.Intn(6) == 0 {
+		return &Expr{kind: "fn", blk: genScope(s, depth-1, nparams, true)}
+	}
+	return &Expr{kind: "block", blk: genScope(s, depth-1, nparams, false)}
 }
 
 // pick prefers (4 times out of 5) a name already used in this scope or an enclosing one, so that
@@ -149,7 +186,7 @@ func genExpr(s *Scope, depth int) *Expr {
 		if depth <= 0 {
 			return &Expr{kind: "num", n: 7}
 		}
-		return &Expr{kind: "block", blk: genScope(s, depth-1, r.Intn(2))}
+		return genLiteral(s, depth, r.Intn(2))
 	}
 }
 
@@ -163,7 +200,7 @@ func (e *Expr) src(force bool) string {
 		return "(" + e.a.src(force) + " + " + e.b.src(force) + ")"
 	case "call":
 		return e.name + "(" + e.a.src(force) + ")"
-	case "block":
+	case "block", "fn":
 		return e.blk.src(force)
 	}
 	panic("?")
@@ -173,7 +210,8 @@ func (e *Expr) src(force bool) string {
 // which makes every block share a variable with the outermost function (=> all closures)
 func (s *Scope) src(force bool) string {
 	var sb strings.Builder
-	if s.parent == nil {
+	fn := s.parent == nil
+	if fn {
 		sb.WriteString("function (" + strings.Join(s.params, ", ") + ") { ")
 		if force {
 			sb.WriteString("qq = 0; ")
@@ -185,9 +223,18 @@ func (s *Scope) src(force bool) string {
 		}
 	}
 	for _, st := range s.body {
-		sb.WriteString(st.name + " = " + st.e.src(force) + "; ")
+		switch st.kind {
+		case "=":
+			sb.WriteString(st.name + " = " + st.e.src(force) + "; ")
+		case "?":
+			sb.WriteString("if ((" + st.c.src(force) + ") is 0) { " + st.name + " = " + st.e.src(force) + " }; ")
+		case "t":
+			sb.WriteString("try { " + st.name + " = " + st.e.src(force) + " } catch (" + st.catch + ") { }; ")
+		case "r":
+			sb.WriteString("return " + st.e.src(force) + "; ")
+		}
 	}
-	if s.parent == nil {
+	if fn {
 		sb.WriteString("return " + s.result.src(force) + " }")
 	} else {
 		sb.WriteString(s.result.src(force) + " }")
@@ -213,6 +260,10 @@ func (e *Expr) lean(sb *strings.Builder) {
 		sb.WriteString(" )")
 	case "block":
 		e.blk.lean(sb)
+	case "fn":
+		sb.WriteString("( F ")
+		e.blk.lean(sb)
+		sb.WriteString(" )")
 	}
 }
 
@@ -223,8 +274,23 @@ func (s *Scope) lean(sb *strings.Builder) {
 	}
 	fmt.Fprintf(sb, " %d", len(s.body))
 	for _, st := range s.body {
-		fmt.Fprintf(sb, " %d ", nameIdx(st.name))
-		st.e.lean(sb)
+		switch st.kind {
+		case "=":
+			fmt.Fprintf(sb, " = %d ", nameIdx(st.name))
+			st.e.lean(sb)
+		case "?":
+			sb.WriteString(" ? ")
+			st.c.lean(sb)
+			fmt.Fprintf(sb, " %d ", nameIdx(st.name))
+			st.e.lean(sb)
+		case "t":
+			fmt.Fprintf(sb, " t %d ", nameIdx(st.name))
+			st.e.lean(sb)
+			fmt.Fprintf(sb, " %d", nameIdx(st.catch))
+		case "r":
+			sb.WriteString(" r ")
+			st.e.lean(sb)
+		}
 	}
 	sb.WriteString(" ")
 	s.result.lean(sb)
@@ -236,10 +302,26 @@ type cell struct {
 	v   any
 	set bool
 }
-type closure struct {
-	s     *Scope
-	store map[string]*cell
+type activation struct {
+	store  map[string]*cell // shared cells of this call of a function
+	active bool
 }
+type closure struct {
+	s   *Scope
+	act *activation
+}
+type function struct{ s *Scope }
+type excStr struct{}
+
+// blockReturn unwinds to the function activation that lexically contains the `return`
+type blockReturn struct {
+	act *activation
+	v   any
+}
+
+// undefinedProgram: a `return` in a block whose function has already returned (the
+// implementation's behaviour then depends on frame reuse; not covered by the documented model)
+type undefinedProgram struct{}
 
 func binding(s *Scope, v string) *Scope {
 	if isParam(s, v) {
@@ -272,17 +354,17 @@ func shared(P *Scope, v string) bool {
 type frame struct {
 	s      *Scope
 	locals map[string]*cell
-	store  map[string]*cell
+	act    *activation
 }
 
 func (f *frame) cellOf(v string) *cell {
 	P := binding(f.s, v)
 	if P != f.s || shared(P, v) {
 		key := fmt.Sprint(P.id, ":", v)
-		c := f.store[key]
+		c := f.act.store[key]
 		if c == nil {
 			c = &cell{}
-			f.store[key] = c
+			f.act.store[key] = c
 		}
 		return c
 	}
@@ -296,11 +378,26 @@ func (f *frame) cellOf(v string) *cell {
 
 var steps int
 
-func invoke(s *Scope, store map[string]*cell, args []any) any {
+// invoke runs one call of a block (act = its creator's activation) or of a function (act == nil)
+func invoke(s *Scope, act *activation, args []any) (result any) {
 	if steps++; steps > 1500 {
 		panic("too many steps")
 	}
-	f := &frame{s: s, locals: map[string]*cell{}, store: store}
+	isFn := act == nil
+	if isFn {
+		act = &activation{store: map[string]*cell{}, active: true}
+		defer func() {
+			act.active = false
+			if e := recover(); e != nil {
+				if br, ok := e.(blockReturn); ok && br.act == act {
+					result = br.v
+					return
+				}
+				panic(e)
+			}
+		}()
+	}
+	f := &frame{s: s, locals: map[string]*cell{}, act: act}
 	if len(args) != len(s.params) {
 		panic("wrong number of arguments")
 	}
@@ -308,10 +405,41 @@ func invoke(s *Scope, store map[string]*cell, args []any) any {
 		c := f.cellOf(p)
 		c.v, c.set = args[i], true
 	}
-	for _, st := range s.body {
-		v := eval(f, st.e)
-		c := f.cellOf(st.name)
+	set := func(name string, v any) {
+		c := f.cellOf(name)
 		c.v, c.set = v, true
+	}
+	for _, st := range s.body {
+		switch st.kind {
+		case "=":
+			set(st.name, eval(f, st.e))
+		case "?":
+			if c, ok := eval(f, st.c).(int); ok && c == 0 {
+				set(st.name, eval(f, st.e))
+			}
+		case "t":
+			func() {
+				defer func() {
+					if e := recover(); e != nil {
+						switch e.(type) {
+						case blockReturn, undefinedProgram:
+							panic(e)
+						}
+						if msg, ok := e.(string); ok && msg == "too many steps" {
+							panic(e)
+						}
+						set(st.catch, excStr{})
+					}
+				}()
+				set(st.name, eval(f, st.e))
+			}()
+		case "r":
+			v := eval(f, st.e)
+			if !act.active {
+				panic(undefinedProgram{})
+			}
+			panic(blockReturn{act, v})
+		}
 	}
 	return eval(f, s.result)
 }
@@ -340,16 +468,23 @@ func eval(f *frame, e *Expr) any {
 		if !c.set {
 			panic("uninitialized variable: " + e.name)
 		}
-		cl, ok := c.v.(*closure)
-		if !ok {
-			panic("can't call")
+		switch cl := c.v.(type) {
+		case *closure:
+			if len(cl.s.params) != 1 {
+				panic("wrong number of arguments")
+			}
+			return invoke(cl.s, cl.act, []any{arg})
+		case *function:
+			if len(cl.s.params) != 1 {
+				panic("wrong number of arguments")
+			}
+			return invoke(cl.s, nil, []any{arg})
 		}
-		if len(cl.s.params) != 1 {
-			panic("wrong number of arguments")
-		}
-		return invoke(cl.s, cl.store, []any{arg})
+		panic("can't call")
 	case "block":
-		return &closure{s: e.blk, store: f.store}
+		return &closure{s: e.blk, act: f.act}
+	case "fn":
+		return &function{s: e.blk}
 	}
 	panic("?")
 }
@@ -357,6 +492,14 @@ func eval(f *frame, e *Expr) any {
 func refRun(s *Scope, arg int) (res string) {
 	defer func() {
 		if e := recover(); e != nil {
+			if _, ok := e.(undefinedProgram); ok {
+				res = "UNDEFINED"
+				return
+			}
+			if _, ok := e.(blockReturn); ok {
+				res = "UNDEFINED"
+				return
+			}
 			res = "ERR " + fmt.Sprint(e)
 		}
 	}()
@@ -365,9 +508,11 @@ func refRun(s *Scope, arg int) (res string) {
 	for range s.params {
 		args = append(args, arg)
 	}
-	switch v := invoke(s, map[string]*cell{}, args).(type) {
+	switch v := invoke(s, nil, args).(type) {
 	case int:
 		return fmt.Sprint(v)
+	case excStr:
+		return "STR"
 	default:
 		return "BLOCK"
 	}
@@ -389,6 +534,12 @@ func realRun(src string, nparams, arg int) (res string) {
 	if v == nil {
 		return "nil"
 	}
+	if _, ok := v.(*core.SuExcept); ok {
+		return "STR"
+	}
+	if _, ok := v.ToStr(); ok {
+		return "STR"
+	}
 	if _, ok := v.ToInt(); ok {
 		return v.String()
 	}
@@ -409,8 +560,8 @@ func canon(s string) string {
 	switch c := class(s); c {
 	case "ERR", "ERR-loop":
 		return "!err"
-	case "BLOCK":
-		return "BLOCK"
+	case "BLOCK", "STR":
+		return c
 	default:
 		return "i" + c
 	}
@@ -480,16 +631,20 @@ func main() {
 	n := lib.N(4000)
 	for i := 0; i < n; i++ {
 		nscope = 0
-		s := genScope(nil, 1+r.Intn(3), r.Intn(2))
+		s := genScope(nil, 1+r.Intn(3), r.Intn(2), true)
 		src := s.src(false)
 		ref := refRun(s, 3)
 		if class(ref) == "ERR-loop" {
 			t.Count("skipped:unbounded-recursion")
 			continue
 		}
+		if ref == "UNDEFINED" {
+			t.Count("skipped:return-from-block-of-finished-function")
+			continue
+		}
 		real := realRun(src, len(s.params), 3)
 		if strings.Contains(real, "compile error") || strings.Contains(real, "syntax error") ||
-			strings.Contains(real, "possibly uninitialized") {
+			strings.Contains(real, "possibly uninitialized") || strings.Contains(real, "cannot do math on") {
 			t.Count("skipped:rejected-statically")
 			continue
 		}
@@ -504,6 +659,8 @@ func main() {
 			t.Count("outcome:exception")
 		case "BLOCK":
 			t.Count("outcome:block-escapes")
+		case "STR":
+			t.Count("outcome:caught-exception-value")
 		default:
 			t.Count("outcome:integer")
 		}
